@@ -238,6 +238,7 @@ def run_shard(acc, prop, tier, seed, shard, nshards, **kw):
     srv = Server()
     try:
         n = 4 if tier == "quick" else 600
+        rw = None
         for wi in range(n):
             from .. import core as _core
             if _core.skip_world(wi):
@@ -251,7 +252,7 @@ def run_shard(acc, prop, tier, seed, shard, nshards, **kw):
                 tp = 38
             rw = run_registry(acc, srv, (seed, PROP, tier, shard, wi), tp, star=(wi == 1))
         # canary: corrupt the model and expect the verifier to object
-        denom = [d for d in rw.reg if any(("n", d) in rec["assets"] for rec in rw.model.values())]
+        denom = [d for d in rw.reg if any(("n", d) in rec["assets"] for rec in rw.model.values())] if rw is not None else []
         if denom:
             d = denom[0]
             save = rw.reg[d]
